@@ -390,8 +390,11 @@ def run_notif(c):
                 out.append(str(NC.registration_exists(obj(op[1]), op[2], listener(op[3]))))
             elif op[0] == 'notify':
                 del log[:]
-                NC.notify(obj(op[1]), op[2])
-                out.append('notify ' + ' '.join(log))
+                try:
+                    NC.notify(obj(op[1]), op[2])
+                    out.append('notify ' + ' '.join(log))
+                except Exception as e:
+                    out.append('notify ' + ' '.join(log) + ' !' + type(e).__name__)
             elif op[0] == 'clear':
                 NC.clear(); out.append('ok')
         except Exception as e:
